@@ -389,6 +389,32 @@ impl<T> VVec<T> {
         }
     }
     pub fn dedup(&mut self) where T: PartialEq + Clone { self.dedup_by_key(|x| x.clone()) }
+    pub fn get_mut(&mut self, k: usize) -> Option<&mut T> {
+        let len = self.len;
+        let sl = match &mut self.slots { Some(sl) => sl, None => return None };
+        let mut i = 0;
+        while i < VCAP { if i == k { return if i < len { sl[i].as_mut() } else { None }; } i += 1; }
+        None
+    }
+    /// keeps the elements for which `f` is true, in order (rebuilds the vector)
+    pub fn retain<F: FnMut(&T) -> bool>(&mut self, mut f: F) {
+        let old = std::mem::take(self);
+        for x in old.into_iter() { if f(&x) { self.push(x); } }
+    }
+    pub fn resize(&mut self, new_len: usize, value: T) where T: Clone {
+        if new_len > VCAP { overflow() }
+        while self.len > new_len { drop(self.pop()); }
+        let mut i = 0;
+        while i < VCAP { if self.len < new_len { self.push(value.clone()); } i += 1; }
+    }
+    pub fn truncate(&mut self, new_len: usize) { while self.len > new_len { drop(self.pop()); } }
+    pub fn append(&mut self, other: &mut Self) { let o = std::mem::take(other); for x in o.into_iter() { self.push(x); } }
+}
+impl<T> std::ops::IndexMut<usize> for VVec<T> {
+    fn index_mut(&mut self, k: usize) -> &mut T { match self.get_mut(k) { Some(x) => x, None => panic!("index out of bounds") } }
+}
+impl<T: std::hash::Hash> std::hash::Hash for VVec<T> {
+    fn hash<H: std::hash::Hasher>(&self, h: &mut H) { self.len.hash(h); for x in self.iter() { x.hash(h); } }
 }
 impl<T> std::ops::Index<usize> for VVec<T> {
     type Output = T;
